@@ -885,4 +885,17 @@ theorem arch_decode_encode (c : ColConsts) (a : Arch) (rest : Bytes) (h : a.nrPo
 example : decodeArch (ColConsts.ofList [5]) (encodeArch (Arch.ofBools [true, false, true] 4) ++ [9, 9]) =
     .ok (Arch.ofBools [true, false, true] 4, [9, 9]) := by decide
 
+/-! ## Generated constants (re-checked against the current sources on every run) -/
+
+/-- The constants the translator extracted from the Rust sources have the properties the decoders
+rely on: `p ≡ 3 (mod 4)` (the square root is one exponentiation), `p` odd and below `2^381` (three
+flag bits are free in the first byte), `r < 2^255`, the two-adicity bound `S = 32` fits a byte, the
+key version byte and the architecture version word are the shipped ones, the IR arity tables
+cover every operation, and the decoding limit of IR programs is 16 MiB. -/
+theorem generated_constants_sound :
+    fpP % 4 = 3 ∧ fpP < 2 ^ 381 ∧ 2 ^ 380 < fpP ∧ fqR < 2 ^ 255 ∧ fqS = 32 ∧ vkVersion = 3 ∧ zkStdVersion = 1 ∧
+    irInputArity.length = irOps.length ∧ irOutputArity.length = irOps.length ∧ irOps.length = 17 ∧
+    irTypes.length = 6 ∧ irDecodingLimit = 16777216 ∧ archBoolFields.length = 11 := by
+  decide +kernel
+
 end MidnightZK.C16
